@@ -284,7 +284,12 @@ def main():
     ex += list(small_exhaustive(1, (0, 1, 2)))
     ex += list(small_exhaustive(2, (1, 2)))
     if c.tier == "thorough":
-        ex += list(small_exhaustive(3, (1,)))          # 216 000 lists
+        # every third of the 216 000 three-candidate lists; which third depends on the seed
+        # (VERIF_C03_FULL=1: all of them, about 10 minutes of coqc on an idle 16-core machine)
+        if os.environ.get("VERIF_C03_FULL") == "1":
+            ex += list(small_exhaustive(3, (1,)))
+        else:
+            ex += list(itertools.islice(small_exhaustive(3, (1,)), c.seed % 3, None, 3))
     else:
         three = list(itertools.islice(small_exhaustive(3, (1,)), 0, None, 97))
         ex += three
@@ -297,7 +302,7 @@ def main():
     c.cov["rule"] = ("select::select on candidate lists: corpus, hand-made boundary lists (exact halves, touching intervals in "
                      "every insertion order, zero radii, minimum_agreeing around the agreeing count, radius at max uncertainty "
                      "+-1ulp, signed zeros, unsynchronised/periodic/too-uncertain candidates inside the consensus), malformed "
-                     "lists (NaN/inf/negative radii, NaN limits), every list of <=2 candidates (and of 3 in the thorough tier) over "
+                     "lists (NaN/inf/negative radii, NaN limits), every list of <=2 candidates (and every third list of 3 in the thorough tier, all with VERIF_C03_FULL=1) over "
                      "a 5x3 offset/radius grid x 4 flag classes, and random clustered lists of up to 12 (some up to 40) candidates "
                      "on a 1/16 grid so that ties are frequent. Non-trivial: at least two candidates contribute bounds.")
     c.cov["exhaustive"] = True
